@@ -33,7 +33,9 @@ def gen(rng, tier):
 LEVEL_TEXT = ("Theorems in coq/Properties_C02.v about the acceptor LTS of the batch processors: a ForceFlush that returns true implies every record queued "
               "before its ticket was taken has been exported and the exporter's ForceFlush called afterwards; after any Shutdown returns the worker has exited, every record "
               "queued before the shutdown latch has been exported, the exporter was shut down exactly once and is never called again; later calls are inert. "
-              "Termination is evidenced by the absence of deadlocks/step-limit hits in the scheduled runs (all waits are timed) and is not a theorem. "
+              "Termination (batch processors): coq/Batch/Fair.v proves, for every continuation trace with the application threads running, that a ForceFlush caller's "
+              "exit condition holds after 16+6Q worker steps and that after shutdown the worker exits within a bound computed from the state (only assumption: the worker keeps "
+              "being scheduled; exporter calls return); the callers' own timed wait loops, the periodic reader and the providers are covered by deadlock/step-limit detection only. "
               "Tied to the C++ by trace acceptance under the scheduler shim; history checkers run on the implementation's traces.")
 LEVEL_NOTE = ("Trusted: Coq kernel, extraction, ocaml/driver.ml, the scheduler shim and token table, the drivers and generators; the model is hand-written and "
               "tied by trace acceptance (not verified against C++ semantics); SC memory; the ring buffer is abstracted to an atomic bounded FIFO (C11).")
